@@ -191,12 +191,12 @@ Definition aht_step (t : aht) (o : aop) : aht :=
 Definition aht_run (ops : list aop) : aht := fold_left aht_step ops aht_empty.
 
 (* ---- Sync / Close / Open.  The commit log (12 bytes per element) is written by sync():
-   `cLog.SetOffset(latestSyncedNode*12)` — which since 09014a8 TRUNCATES the file there — followed
-   by the buffered entries; sync() does nothing when no append is buffered.  ResetSize calls
-   sync() FIRST and then only lowers the sizes in memory: the commit-log file keeps its entries
-   until the next append is synced.  OpenWith RE-DERIVES the sizes from the file: size = number
-   of entries, dLogSize = nodesUpto(size), after checking that the payload and digest logs are long
-   enough.  State of a run: (tree, entries in the commit-log file, "an append is buffered"). ---- *)
+   `cLog.SetOffset(latestSyncedNode*12)` followed by the buffered entries (nothing when no append
+   is buffered); SetOffset TRUNCATES the file there (/repo 09014a8).  ResetSize(k), k < size, calls
+   sync() and then cuts the commit log itself: `cLog.SetOffset(k*12)` (/repo 6a85281).  OpenWith
+   RE-DERIVES the sizes from the file: size = number of entries, dLogSize = nodesUpto(size), after
+   checking that the payload and digest logs are long enough.
+   State of a run: (tree, entries in the commit-log file, "an append is buffered"). ---- *)
 Definition ECorruptedData : N := 14.
 Definition reopen_at (t : aht) (centries : N) : res aht :=
   if lenN (plog t) <? centries then Err ECorruptedData else
@@ -225,7 +225,7 @@ Definition aht_step2 (s : run2) (o : aop2) : run2 :=
       (* size < k: error; size = k: nothing, both before sync() *)
       if size (rtree s) <=? k then s else
       let s' := sync2 s in
-      match reset_size (rtree s') k with Ok t' => mkRun t' (centries s') false | _ => s' end
+      match reset_size (rtree s') k with Ok t' => mkRun t' k false | _ => s' end
   | Reopen2 =>
       let s' := sync2 s in
       match reopen_at (rtree s') (centries s') with Ok t' => mkRun t' (centries s') false | _ => s' end
@@ -237,22 +237,15 @@ Definition aht_step2 (s : run2) (o : aop2) : run2 :=
 
 Definition aht_run2 (ops : list aop2) : run2 := fold_left aht_step2 ops (mkRun aht_empty 0 false).
 
-(* what the payload list is meant to be: (current content, content the commit log on disk
-   stands for, an append is buffered) *)
-Definition spec2 := (list bytes * list bytes * bool)%type.
-Definition spec_sync (s : spec2) : spec2 := let '(L, D, b) := s in if b then (L, L, false) else s.
-Definition spec_step2 (s : spec2) (o : aop2) : spec2 :=
-  match o with
-  | A2 d => let '(L, D, b) := s in (L ++ [d], D, true)
-  | R2 k => let '(L, D, b) := s in
-            if lenN L <=? k then s else
-            let '(L', D', _) := spec_sync s in (firstn (N.to_nat k) L', D', false)
-  | Reopen2 => let '(_, D', _) := spec_sync s in (D', D', false)
-  | Crash2 c => let '(L', D', _) := spec_sync s in
-                if lenN D' <? c then (L', D', false)
-                else (firstn (N.to_nat c) D', firstn (N.to_nat c) D', false)
+(* the same history for a tree that never restarts: restarts dropped, a crash image = a rewind *)
+Fixpoint strip2 (ops : list aop2) : list aop :=
+  match ops with
+  | [] => []
+  | A2 d :: r => OAppend d :: strip2 r
+  | R2 k :: r => OReset k :: strip2 r
+  | Reopen2 :: r => strip2 r
+  | Crash2 c :: r => OReset c :: strip2 r
   end.
-Definition spec_run2 (ops : list aop2) : spec2 := fold_left spec_step2 ops ([], [], false).
 
 (* the abstract content: the payloads below the size *)
 Definition payloads (t : aht) : list bytes := firstn (N.to_nat (size t)) (plog t).
